@@ -1050,6 +1050,73 @@ def flag_dance_cases(rng, count):
     return cases
 
 
+def preset_gradient_cases(rng, count):
+    """a caller-made gradient written through `gradient_mut` (`gradmutset`, a wrapper instruction of Model/Probe.v):
+    the stored-gradient cell is then in a state no pass produces - a root whose gradient is not what its last pass
+    left, an accumulator whose dimensions differ from (but broadcast to) the array's.  The next pass must still seed
+    with all ones when the seed is omitted, add its exact contribution to what is stored, and leave a gradient of
+    the array's dimensions (closed forms, integers)."""
+    cases = []
+    for k in range(count):
+        if k % 3 != 2:
+            # (a) omitted seed, the gradients overwritten (zero_grad style or arbitrary), omitted seed again
+            d = rng.choice([[2], [3], [2, 2], [1, 3]])
+            nel = prod(d)
+            av, bv = int_vals(nel, rng), int_vals(nel, rng)
+            kind = rng.choice(["mul", "add"])
+            ins = [("leaf", True, d, av), ("leaf", True, d, bv), ("op", (kind,), [0, 1])]
+            first = None if rng.random() < 0.75 else int_vals(nel, rng, -2, 3)
+            ins.append(("backward", 2, None if first is None else (d, first)))
+            sd = first or [1.0] * nel
+            ga = [x * y for x, y in zip(sd, bv)] if kind == "mul" else list(sd)
+            expect = []
+            ins.append(("grad", 0)); expect.append((len(ins) - 1, d, list(ga)))
+            zero = rng.random() < 0.6
+            rz = [0.0] * nel if zero else int_vals(nel, rng, -2, 3)
+            ins.append(("gradmutset", 2, d, rz)); expect.append((len(ins) - 1, d, list(sd)))
+            if rng.random() < 0.6:
+                az = [0.0] * nel if zero else int_vals(nel, rng, -2, 3)
+                ins.append(("gradmutset", 0, d, az)); expect.append((len(ins) - 1, d, list(ga)))
+                ga = az
+            for _ in range(rng.randint(1, 2)):
+                s2 = None if rng.random() < 0.8 else int_vals(nel, rng, -2, 3)
+                ins.append(("backward", 2, None if s2 is None else (d, s2)))
+                s2v = s2 or [1.0] * nel
+                ga = [g + (x * y if kind == "mul" else x) for g, x, y in zip(ga, s2v, bv)]
+                rz = [g + x for g, x in zip(rz, s2v)]
+                ins.append(("grad", 0)); expect.append((len(ins) - 1, d, list(ga)))
+                ins.append(("grad", 2)); expect.append((len(ins) - 1, d, list(rz)))
+            c = case("preset_root", ins, "gradient_overwritten_between_passes")
+        else:
+            # (b) an accumulator of other (broadcast-compatible) dimensions preset on a leaf: the pass adds to it and
+            # the stored gradient has the leaf's dimensions
+            n_ = rng.choice([2, 3])
+            d = rng.choice([[1, n_], [2, n_], [1, 1, n_]])
+            nel = prod(d)
+            pd = rng.choice([[n_], [1]]) if d[0] == 1 or len(d) == 3 else rng.choice([[n_], [1], [1, n_]])
+            pv = int_vals(prod(pd), rng, -2, 3)
+            av, bv = int_vals(nel, rng), int_vals(nel, rng)
+            kind = rng.choice(["mul", "add"])
+            ins = [("leaf", True, d, av), ("leaf", True, d, bv), ("gradmutset", 0, pd, pv)]
+            expect = [(2, d, None)]
+            ins.append(("op", (kind,), [0, 1]))
+            sd = int_vals(nel, rng, -2, 3)
+            ins.append(("backward", 3, (d, sd)))
+            contrib = [x * y for x, y in zip(sd, bv)] if kind == "mul" else list(sd)
+            pre = [pv[i % len(pv)] for i in range(nel)]
+            ga = [x + y for x, y in zip(pre, contrib)]
+            ins.append(("grad", 0)); expect.append((len(ins) - 1, d, list(ga)))
+            if rng.random() < 0.5:
+                ins.append(("backward", 3, (d, sd)))
+                ga = [x + y for x, y in zip(ga, contrib)]
+                ins.append(("grad", 0)); expect.append((len(ins) - 1, d, list(ga)))
+            c = case("preset_acc", ins, "preset_accumulator_of_other_dimensions")
+        c["expect_at"] = expect
+        c["adjudicate"] = [e[0] for e in expect]
+        cases.append(c)
+    return cases
+
+
 def gen_C01(tier, rng):
     cases = []
     kinds = ["add", "mul", "cmul"]
@@ -1417,6 +1484,8 @@ def gen_C03(tier, rng):
         b = randprog.Builder(rng, exact=True, ops=[("matmul", 3), ("add", 2), ("mul", 2), ("sum", 1), ("conv", 1)])
         root = b.build(rng.randint(2, 5))
         cases.append(graph_case("bcast_random", b, root, b.seed_for(root, "int"), "random"))
+    # caller-made gradients written through gradient_mut (drawn last, so the streams above are unchanged)
+    cases += preset_gradient_cases(rng, 45 if tier == "quick" else 600)
     return cases
 
 
@@ -1458,7 +1527,7 @@ PROPS["C03"] = {
             "program text",
     "exhaustive": {"quick": False, "thorough": True},
     "assumptions": [],
-    "post": ["grad_dims"],
+    "post": ["grad_dims", "expected_gradients"],
 }
 
 
@@ -2001,6 +2070,8 @@ def gen_C17(tier, rng):
         c["expect_at"] = [(4, d, [0.0 * x for x in g2]), (6, d, g2)]
         c["adjudicate"] = [4, 6]
         cases.append(c)
+    # caller-made gradients written through gradient_mut (drawn last, so the streams above are unchanged)
+    cases += preset_gradient_cases(rng, 60 if tier == "quick" else 600)
     return cases
 
 
@@ -2582,6 +2653,8 @@ def gen_C10(tier, rng):
         c["expect_at"] = expect
         c["adjudicate"] = [e[0] for e in expect]
         cases.append(c)
+    # caller-made gradients written through gradient_mut (drawn last, so the streams above are unchanged)
+    cases += preset_gradient_cases(rng, 45 if tier == "quick" else 600)
     return cases
 
 
@@ -2860,6 +2933,35 @@ def gen_C18(tier, rng):
         c["cls"] = "model_loop"
         c.pop("model_meta", None)
         cases.append(c)
+    # operands switched on with start_tracking() alone (tracked, but never marked to keep a gradient) next to an
+    # ordinary tracked leaf, through the operations whose derivative reads the sibling operand: pass(es), results
+    # dropped, the gradients LEFT where they are, Vec::from on both leaves - a stored gradient is a plain array that
+    # holds no operand
+    sib = [("mul",), ("div",), ("matmul", False, False), ("matmul", False, True), ("matmul", True, False), ("axpy", 0.5),
+           ("add",), ("sub",)]
+    for opk in sib:
+        for started in (0, 1, 2):          # which operand is the started one (2: both)
+            for passes in (1, 2):
+                d = [2, 2] if opk[0] == "matmul" else [3]
+                ins = []
+                for j in (0, 1):
+                    st = started in (j, 2)
+                    ins.append(("leaf", not st, d, iota(prod(d), 1.0 + 3 * j)))
+                if started in (0, 2):
+                    ins.append(("start", 0))
+                if started in (1, 2):
+                    ins.append(("start", 1))
+                ins.append(("op", opk, [0, 1]))
+                r = len(ins) - 1
+                for _ in range(passes):
+                    ins.append(("backward", r, None))
+                ins += [("grad", 0), ("grad", 1), ("drop", r)]
+                order = [0, 1] if (passes + started) % 2 else [1, 0]
+                ins += [("takevec", order[0]), ("takevec", order[1])]
+                c = case("started_operand", ins, "release_started_operand")
+                c["takes"] = [len(ins) - 2, len(ins) - 1]
+                c["adjudicate"] = c["takes"]
+                cases.append(c)
     return cases
 
 
